@@ -224,7 +224,7 @@ def gen(j, rng, nops):
 
 def space(tier):
     sp = Space(ID)
-    sp.add("long_histories", 60 if tier == "quick" else 6000, lambda j, rng: gen(j, rng, 260), wall_limit=300)
+    sp.add("long_histories", 60 if tier == "quick" else 6000, lambda j, rng: gen(j, rng, 260), wall_limit=600)
     sp.add("short_histories", 2400 if tier == "quick" else 40_000, lambda j, rng: gen(j, rng, 30))
 
     def every_value(j, rng):
@@ -238,5 +238,5 @@ def space(tier):
                 ops += [{"op": "setprop", "attr": attr, "value": v}, {"op": "apply"}]
         p["ops"] = ops
         return p
-    sp.add("every_property_value", 8 if tier == "quick" else 200, every_value, exhaustive=True, wall_limit=300)
+    sp.add("every_property_value", 8 if tier == "quick" else 200, every_value, exhaustive=True, wall_limit=600)
     return sp
